@@ -1,0 +1,19 @@
+//go:build verif
+
+package ibe
+
+import (
+	"go.dedis.ch/kyber/v4"
+	"go.dedis.ch/kyber/v4/pairing"
+)
+
+// VerifH3 exposes h3 (hash of sigma and msg to a scalar) to the verification harness.
+func VerifH3(s pairing.Suite, sigma, msg []byte) (kyber.Scalar, error) { return h3(s, sigma, msg) }
+
+// VerifH4 exposes h4 (hash of sigma, truncated to length) to the verification harness.
+func VerifH4(s pairing.Suite, sigma []byte, length int) ([]byte, error) { return h4(s, sigma, length) }
+
+// VerifGtToHash exposes gtToHash (hash of a GT element into a buffer of the given length).
+func VerifGtToHash(s pairing.Suite, gt kyber.Point, length int) ([]byte, error) {
+	return gtToHash(s, gt, length)
+}
